@@ -14,6 +14,7 @@ Reading guide.
 * `Dividers`/`Inverter`/`inv_mod` are taken at their specification (properties C08, C09).
 -/
 import Ymq.Lemmas.PolySiqsExact
+import Ymq.Lemmas.PolyCrt
 import Ymq.Lemmas.PolyMpqs
 import Ymq.Lemmas.PolyQs
 
@@ -261,6 +262,24 @@ theorem roots_exact (n : Int) (fb : List Prime) (f : Factors) (a mm idx : Nat) (
     have hbodd : pol.b % 2 = 1 := hw.2.2.2.1 ht2
     exact exact_two (mm := mm) fam hfin (ht0.trans ht2) hex hbodd haodd hi hi' hp2 x
 
+open Ymq.PolyCrt in
+/-- `siqs_B_sq`: the CRT basis of `prepare_a`. For a selection of distinct primes with square roots of
+`n` (`SelOk`), the table of inverses of `select_siqs_factors` (`mkFactors`), `A` the product of the
+selected primes dividing it, and `prs` the pairs `[r0ⱼ, r1ⱼ]` computed by the model (`rootPairs`): for EVERY
+choice `g` of one root per factor, `B = Σⱼ (if g j then r1ⱼ else r0ⱼ)` satisfies `A ∣ B² − n`; and for
+type 2 (`n ≡ 1 mod 4`, `A` odd, at least one factor) `B` is odd and `4A ∣ B² − n` (the parity rule: the
+roots of factor 0 are odd, all others even). In particular the code's
+`debug_assert!((b*b − n) % a == 0)` and `assert!(b.bit(0))` hold for the first polynomial
+(`g = fun _ => false`) and for every Gray-code combination. -/
+theorem siqs_B_sq (n : Int) (sel : List Prime) (f : Factors) (a : Nat) (prs : List (Nat × Nat))
+    (hs : SelOk n sel) (hf : mkFactors n sel = some f)
+    (ha : a = ((afsOf f a).map (·.2.p)).prod)
+    (hprs : rootPairs f a (afsOf f a) 0 (afsOf f a) = some prs) (g : Nat → Bool) :
+    (a : Int) ∣ (bsum g 0 prs : Int) * (bsum g 0 prs : Int) - n ∧
+    (n % 4 = 1 → a % 2 = 1 → prs ≠ [] →
+      bsum g 0 prs % 2 = 1 ∧ (4 * (a : Int)) ∣ (bsum g 0 prs : Int) * (bsum g 0 prs : Int) - n) :=
+  crt_B_sq hs hf ha hprs g
+
 /-! #### non-vacuity of the SIQS theorems: a concrete family (n = 1050589 ≡ 5 mod 8, A = 7·11) -/
 
 private def fbEx : List Prime := [⟨2, 1⟩, ⟨3, 1⟩, ⟨5, 2⟩, ⟨7, 1⟩, ⟨11, 1⟩, ⟨23, 8⟩]
@@ -268,6 +287,14 @@ private def selEx : List Prime := [⟨5, 2⟩, ⟨7, 1⟩, ⟨11, 1⟩]
 private def fEx : Factors := (mkFactors 1050589 selEx).get (by decide)
 
 example : FbOk 1050589 fbEx := ⟨by decide, by decide, by decide⟩
+
+open Ymq.PolyCrt in
+/-- the hypotheses of `siqs_B_sq` are satisfiable (A = 7·11, type 2) -/
+example : SelOk 1050589 selEx ∧ mkFactors 1050589 selEx = some fEx ∧
+    77 = ((afsOf fEx 77).map (·.2.p)).prod ∧
+    (rootPairs fEx 77 (afsOf fEx 77) 0 (afsOf fEx 77)).isSome = true ∧ (1050589 : Int) % 4 = 1 := by
+  refine ⟨⟨by decide, by decide, by decide⟩, ?_, by decide, by decide, by decide⟩
+  unfold fEx; simp
 
 /-- the hypotheses of `roots_inv`, `roots_walk`, `poly_exact`, `roots_exact` are satisfiable -/
 example : ∃ pa pol, prepareA fEx 77 fbEx (-((32768 : Nat) : Int) / 2) = some pa ∧
